@@ -150,7 +150,7 @@ impl ConcurrentStatsCounter {
     pub(crate) fn hit_ratio(&self) -> f64 {
         let hits = self.hits();
         let misses = self.misses();
-        if hits == 0 || misses == 0 {
+        if hits == 0 {
             return 0.0;
         }
         (hits as f64) / (hits + misses) as f64
